@@ -68,9 +68,11 @@ func (f *frame) call(t *ssa.Call) {
 	if fc != nil && fc.Opaque {
 		if fc.HasModifies && !fc.ModAll {
 			// opaque with a declared frame: only the listed locations are havoc'd (the frame is an assumption)
+			x.opaqueInterior = true
 			for i := range args {
 				args[i] = f.materialize(args[i], callee.Params[i].Type())
 			}
+			x.opaqueInterior = false
 			pre := x.calleeCtx(callee, fc, args, f.cur.heap, f.cur.heap)
 			targets, err := pre.evalModTargets(fc.Modifies)
 			if err != nil {
@@ -182,6 +184,24 @@ func (f *frame) havocCall(t *ssa.Call, why string, args []Val, moduleFn bool) {
 	if moduleFn || hasRefArgs(args) {
 		f.cur.heap = x.H.HavocAll(f.cur.heap)
 		x.note("%s: all memory havoc'd at the call", why)
+		// declared data-structure invariants are taken to be preserved by every function: re-assume them for the
+		// pointer arguments and for the verified function's own pointer parameters in the new state
+		if len(x.W.Contracts.TypeInvs) > 0 {
+			reassume := func(v Val) {
+				if v.Typ == nil || len(v.T) == 0 {
+					return
+				}
+				for _, fact := range x.typeInvFacts(v.Typ, v.T, f.cur.heap) {
+					f.assume(fact)
+				}
+			}
+			for _, a := range args {
+				reassume(a)
+			}
+			for _, p := range x.topParams {
+				reassume(p)
+			}
+		}
 	}
 	f.setFreshResult(t)
 }
